@@ -319,8 +319,8 @@ func main() {
 				if oi == 1 {
 					// vary the initial state too
 					prof.Caps |= refterm.CapDECRQSS
-					prof.UserCursorStyle = 4
-					prof.AppID = "" // the terminal had no application id before
+					prof.UserCursorStyle = 1 + i%6 // every style a terminal can report, rotating over the profiles
+					prof.AppID = ""                // the terminal had no application id before
 				}
 				if oi == 2 {
 					// a terminal whose size reports (the in-band one among them) carry no pixel sizes
@@ -358,7 +358,7 @@ func main() {
 				prof.Caps |= refterm.CapOSC4 | refterm.CapOSC10 | refterm.CapOSC11 | refterm.CapKittyGraphics | refterm.CapSizeReports
 				if oi%2 == 0 {
 					prof.Caps |= refterm.CapDECRQSS
-					prof.UserCursorStyle = 3
+					prof.UserCursorStyle = 1 + (i+2)%6
 				}
 				for _, sh := range deepShapes {
 					runSession(prof, o, sh)
@@ -377,7 +377,7 @@ func main() {
 				prof := profileOf(i)
 				if oi%2 == 1 {
 					prof.Caps |= refterm.CapDECRQSS
-					prof.UserCursorStyle = 5
+					prof.UserCursorStyle = 6 - i%6
 				}
 				for _, sh := range allShapes {
 					if sh.End == endSignal && o.NoSignals {
@@ -395,7 +395,7 @@ func main() {
 	n := r.Get("sessions")
 	r.Finish(explore.Coverage{
 		States: -1, Transitions: n, Traces: n, Evaluations: n,
-		Rule:       "every profile of the gating capability space (2^12 capability subsets x 4 XTVERSION strings) x {DisableMouse} x {DisableKittyKeyboard} (the four option sets also vary the terminal: reported cursor style and an empty prior application id, size reports without pixel sizes, name-only XTGETTCAP answers and DECRPM status 4) x every session New mid* end with |mid|<=bound over {frame, ShowCursor+frame, SetMouseShape+frame, SetAppID, Suspend+Resume, SetTitle} and end in {Close, Close Close, Suspend, Suspend Close, SIGTERM at a quiescent point}; deeper sessions on a pairwise-covering set of profiles with the reporting capabilities on, over four more middle operations (ShowCursor and SetMouseShape left pending without a frame, ShowCursor in the terminal's own style + frame, HideCursor + frame); on the same covering set every session of the first family under six further option sets (ReportKeyboardEvents, three CSIuBitMask values, NoSignals, NoSignals+DisableMouse+ReportKeyboardEvents; no SIGTERM ending without handlers); distinct = (profile, option set) pairs whose sessions all passed",
+		Rule:       "every profile of the gating capability space (2^12 capability subsets x 4 XTVERSION strings) x {DisableMouse} x {DisableKittyKeyboard} (the four option sets also vary the terminal: reported cursor style (rotating over 1..6) and an empty prior application id, size reports without pixel sizes, name-only XTGETTCAP answers and DECRPM status 4) x every session New mid* end with |mid|<=bound over {frame, ShowCursor+frame, SetMouseShape+frame, SetAppID, Suspend+Resume, SetTitle} and end in {Close, Close Close, Suspend, Suspend Close, SIGTERM at a quiescent point}; deeper sessions on a pairwise-covering set of profiles with the reporting capabilities on, over four more middle operations (ShowCursor and SetMouseShape left pending without a frame, ShowCursor in the terminal's own style + frame, HideCursor + frame); on the same covering set every session of the first family under six further option sets (ReportKeyboardEvents, three CSIuBitMask values, NoSignals, NoSignals+DisableMouse+ReportKeyboardEvents; no SIGTERM ending without handlers); distinct = (profile, option set) pairs whose sessions all passed",
 		Exhaustive: true,
 		Bounds:     map[string]any{"profiles": nProf, "option_sets": len(optSets), "shapes_all_profiles": len(allShapes), "shapes_covering_set": len(deepShapes), "covering_profiles": len(coveringSet())},
 		Assumptions: []string{
